@@ -10,8 +10,6 @@ __CPROVER_ensures (1);
 
 /* ghost record of the hash comparison: the decoder may declare end-of-stream only after it has read
    the stored check hash (this call) and found it equal to the hash of what it decoded */
-uint64_t vp_last_str2hash;
-unsigned vp_str2hash_calls;
 static inline uint64_t _reduce_str2hash (const uint8_t *s)
 __CPROVER_requires (__CPROVER_r_ok (s, 8))
 __CPROVER_assigns (vp_last_str2hash, vp_str2hash_calls)
